@@ -108,15 +108,44 @@ func isOsExit(call *ssa.CallCommon) (int64, bool) {
 	return 0, false
 }
 
-// exitBlocks: blocks of fn that call os.Exit with a non-zero constant.
+// exitBlocks: blocks of fn that call os.Exit with a non-zero constant, or a helper of the
+// module every path of which ends in such a call.
 func exitBlocks(fn *ssa.Function) map[*ssa.BasicBlock]bool {
+	return exitBlocksD(fn, 0)
+}
+
+func exitBlocksD(fn *ssa.Function, depth int) map[*ssa.BasicBlock]bool {
 	out := map[*ssa.BasicBlock]bool{}
 	for _, ci := range core.Calls(fn) {
+		if _, isCall := ci.(*ssa.Call); !isCall {
+			continue // deferred / go calls do not end the path here
+		}
 		if k, ok := isOsExit(ci.Common()); ok && k != 0 {
+			out[ci.Block()] = true
+			continue
+		}
+		if sc := ci.Common().StaticCallee(); sc != nil && sc != fn && len(sc.Blocks) > 0 && depth < 2 && alwaysExits(sc, depth+1) {
 			out[ci.Block()] = true
 		}
 	}
 	return out
+}
+
+// alwaysExits: no return of fn is reachable from its entry without passing a non-zero exit.
+func alwaysExits(fn *ssa.Function, depth int) bool {
+	ex := exitBlocksD(fn, depth)
+	if len(ex) == 0 {
+		return false
+	}
+	if ex[fn.Blocks[0]] {
+		return true
+	}
+	for _, ret := range core.Returns(fn) {
+		if core.ReachableAvoiding(fn.Blocks[0], ret.Block(), ex) {
+			return false
+		}
+	}
+	return true
 }
 
 // mustExitFrom: every path from b ends in os.Exit(non-zero) before the function can return.
@@ -136,9 +165,42 @@ func mustExitFrom(fn *ssa.Function, b *ssa.BasicBlock) bool {
 
 // ---------- C20 ----------
 
+// cmdCaller: the function of the CLI package that calls the named library entry point.
+func (c *Ctx) cmdCaller(rel, name string) *ssa.Function {
+	for _, fn := range c.P.ModuleFunctions() {
+		if relOfFn(fn) != "internal/cmd" {
+			continue
+		}
+		for _, ci := range core.Calls(fn) {
+			if o := core.CalleeObj(ci.Common()); o != nil && o.Name() == name && o.Pkg() != nil {
+				if r, _ := core.Rel(o.Pkg()); r == rel {
+					return fn
+				}
+			}
+		}
+	}
+	return nil
+}
+
+// withCmdCallees: fn and the functions of its package it calls, transitively (bounded).
+func (c *Ctx) withCmdCallees(fn *ssa.Function) []*ssa.Function {
+	out := []*ssa.Function{fn}
+	seen := map[*ssa.Function]bool{fn: true}
+	for i := 0; i < len(out) && len(out) < 40; i++ {
+		for _, ci := range core.Calls(out[i]) {
+			sc := ci.Common().StaticCallee()
+			if sc != nil && !seen[sc] && len(sc.Blocks) > 0 && relOfFn(sc) == relOfFn(fn) {
+				seen[sc] = true
+				out = append(out, sc)
+			}
+		}
+	}
+	return out
+}
+
 // CLICheckExitStatus (C20.1 + C20.2).
 func (c *Ctx) CLICheckExitStatus(ob *core.Obligation) {
-	fn := c.P.SSAFunc(c.P.LookupFunc("internal/cmd", "check"))
+	fn := c.cmdCaller("internal/analysis", "CheckSource")
 	if fn == nil {
 		ob.Unknown("anchor:cmd.check", "-", "CLI check function not found")
 		return
@@ -274,32 +336,34 @@ func (c *Ctx) CLICheckExitStatus(ob *core.Obligation) {
 	// every diagnostic is printed with line, character and message
 	key3 := "cli-check:print"
 	var hasLine, hasChar, hasMsg, inLoop bool
-	for _, b := range fn.Blocks {
-		for _, in := range b.Instrs {
-			switch x := in.(type) {
-			case *ssa.UnOp:
-				if f := core.FieldOf(x.X); f != nil && isPositionField(f) {
-					if f.Name() == "Line" {
-						hasLine = true
-					} else {
-						hasChar = true
+	for _, pf := range c.withCmdCallees(fn) {
+		for _, b := range pf.Blocks {
+			for _, in := range b.Instrs {
+				switch x := in.(type) {
+				case *ssa.UnOp:
+					if f := core.FieldOf(x.X); f != nil && isPositionField(f) {
+						if f.Name() == "Line" {
+							hasLine = true
+						} else {
+							hasChar = true
+						}
 					}
-				}
-			case *ssa.Field:
-				if f := core.FieldOf(x); f != nil && isPositionField(f) {
-					if f.Name() == "Line" {
-						hasLine = true
-					} else {
-						hasChar = true
+				case *ssa.Field:
+					if f := core.FieldOf(x); f != nil && isPositionField(f) {
+						if f.Name() == "Line" {
+							hasLine = true
+						} else {
+							hasChar = true
+						}
 					}
-				}
-			case *ssa.Call:
-				if x.Call.IsInvoke() && x.Call.Method.Name() == "Message" {
-					hasMsg = true
-				}
-			case *ssa.If:
-				if isRangeCond(x.Cond) {
-					inLoop = true
+				case *ssa.Call:
+					if x.Call.IsInvoke() && x.Call.Method.Name() == "Message" {
+						hasMsg = true
+					}
+				case *ssa.If:
+					if isRangeCond(x.Cond) {
+						inLoop = true
+					}
 				}
 			}
 		}
@@ -313,7 +377,7 @@ func (c *Ctx) CLICheckExitStatus(ob *core.Obligation) {
 
 // CLIRunPassThrough (C20.3 - C20.5).
 func (c *Ctx) CLIRunPassThrough(ob *core.Obligation) {
-	fn := c.P.SSAFunc(c.P.LookupFunc("internal/cmd", "run"))
+	fn := c.cmdCaller("internal/interpreter", "RunProgram")
 	if fn == nil {
 		ob.Unknown("anchor:cmd.run", "-", "CLI run function not found")
 		return
@@ -398,8 +462,25 @@ func (c *Ctx) CLIRunPassThrough(ob *core.Obligation) {
 							continue
 						}
 						for _, in := range b.Instrs {
-							if call, ok := in.(*ssa.Call); ok && call.Call.IsInvoke() && call.Call.Method.Name() == "Error" && call.Call.Value == errv {
+							call, ok := in.(*ssa.Call)
+							if !ok {
+								continue
+							}
+							if call.Call.IsInvoke() && call.Call.Method.Name() == "Error" && call.Call.Value == errv {
 								printed = true
+							}
+							if sc := call.Call.StaticCallee(); sc != nil && len(sc.Blocks) > 0 && relOfFn(sc) == "internal/cmd" {
+								for ai, a := range call.Call.Args {
+									if a != errv || ai >= len(sc.Params) {
+										continue
+									}
+									for _, c2 := range core.Calls(sc) {
+										if cc := c2.Common(); cc.IsInvoke() && cc.Method.Name() == "Error" && cc.Value == sc.Params[ai] && sc.Blocks[0].Dominates(c2.Block()) {
+											printed = true
+											c.Touch(sc)
+										}
+									}
+								}
 							}
 						}
 					}
@@ -446,20 +527,43 @@ func (c *Ctx) CLIRunPassThrough(ob *core.Obligation) {
 	}
 	okJ := false
 	whyJ := "JSON mode does not hand the library's result to the JSON printer"
-	for _, ci := range core.Calls(fn) {
-		call, ok := ci.(*ssa.Call)
+	// the values the result pointer flows to: the call result and the parameters it is passed as
+	flow := []ssa.Value{}
+	if resv != nil {
+		flow = append(flow, resv)
+	}
+	for i := 0; i < len(flow) && len(flow) < 12; i++ {
+		v := flow[i]
+		if v.Referrers() == nil {
+			continue
+		}
+		for _, r := range *v.Referrers() {
+			call, ok := r.(*ssa.Call)
+			if !ok {
+				continue
+			}
+			sc := call.Call.StaticCallee()
+			if sc == nil || !c.P.InModule(sc) || len(sc.Blocks) == 0 {
+				continue
+			}
+			for ai, a := range call.Call.Args {
+				if a == v && ai < len(sc.Params) {
+					flow = append(flow, sc.Params[ai])
+				}
+			}
+		}
+	}
+	for _, v := range flow {
+		pa, ok := v.(*ssa.Parameter)
 		if !ok {
 			continue
 		}
-		sc := call.Call.StaticCallee()
-		if sc == nil || !c.P.InModule(sc) || len(call.Call.Args) != 1 || call.Call.Args[0] != resv {
-			continue
-		}
+		sc := pa.Parent()
 		// inside: json.Marshal(param) -> os.Stdout.Write(bytes)
 		var marsh *ssa.Call
 		for _, c2 := range core.Calls(sc) {
 			if m, ok := c2.(*ssa.Call); ok && core.IsFunc(core.CalleeObj(&m.Call), "encoding/json", "Marshal") {
-				if mi, ok := m.Call.Args[0].(*ssa.MakeInterface); ok && mi.X == sc.Params[0] {
+				if mi, ok := m.Call.Args[0].(*ssa.MakeInterface); ok && mi.X == ssa.Value(pa) {
 					marsh = m
 				}
 			}
@@ -489,10 +593,15 @@ func (c *Ctx) CLIRunPassThrough(ob *core.Obligation) {
 		}
 	}
 	// no store through the result pointer between the run and the print
-	if okJ && resv != nil {
-		for _, r := range *resv.Referrers() {
-			if fa, ok := r.(*ssa.FieldAddr); ok && fieldAddrWrittenTo(fa) {
-				okJ, whyJ = false, "a field of the library's result is rewritten before it is printed"
+	if okJ {
+		for _, v := range flow {
+			if v.Referrers() == nil {
+				continue
+			}
+			for _, r := range *v.Referrers() {
+				if fa, ok := r.(*ssa.FieldAddr); ok && fieldAddrWrittenTo(fa) {
+					okJ, whyJ = false, "a field of the library's result is rewritten before it is printed"
+				}
 			}
 		}
 	}
